@@ -15,7 +15,29 @@ META = dict(
 
 def tasks(tier):
     from vf.core import Task
-    return [Task('props.C20:ob_memo', name='C20/memo-keys', timeout=120)] + [Task('props.wire:run', name='C20/wire.c20_integrator_frame', fname='c20_integrator_frame', timeout=300), Task('props.wire:run', name='C20/wire.c20_frame_small', fname='c20_frame_small', timeout=300)] + bounded_tasks('C20', tier)
+    return [Task('props.C20:ob_memo', name='C20/memo-keys', timeout=120)] + [Task('props.wire:run', name='C20/wire.c20_integrator_frame', fname='c20_integrator_frame', timeout=300), Task('props.wire:run', name='C20/wire.c20_frame_small', fname='c20_frame_small', timeout=300),
+            Task('props.C20:t_S_frame', name='C20/wire.S_frame', timeout=120)] + _kernel_frames() + bounded_tasks('C20', tier)
+
+
+def _kernel_frames():
+    from vf.core import Task
+    from contracts.c_kernels import kernel_list
+    return [Task('props.C20:t_kernel_frame', name='C20/kernel-frame.' + fname, relpath=relpath, fname=fname, timeout=900) for relpath, fname in kernel_list()]
+
+
+def t_kernel_frame(relpath, fname):
+    """the compiled kernels write only the density they are handed (and their own scratch): frame clauses of the kernel contract (same contract as C02)"""
+    from contracts.c_kernels import verify_kernel
+    return verify_kernel(relpath, fname, pid='C20', only=['/frame', '/structure'])
+
+
+def t_S_frame():
+    """Spectrum.S() re-masks the corners temporarily and puts the caller's mask back (same contract as C13)"""
+    from contracts import py_wiring as W
+    rs = W.c13_S_frame()
+    for r in rs:
+        r['id'] = r['id'].replace('C13/', 'C20/', 1)
+    return rs
 
 
 def ob_memo():
